@@ -75,7 +75,7 @@ func checkAccounting(e *drv.Env, when string) (*refdec.Accounting, *drv.Violatio
 		}
 		// FreeAlloc is only maintained when a write transaction closes ("only updated when a transaction closes"),
 		// so it is not asserted directly after Open.
-		if when != "after open" && st.FreeAlloc != (len(free)+len(pending))*e.PageSize {
+		if e.WriteTxClosed && st.FreeAlloc != (len(free)+len(pending))*e.PageSize {
 			return a, drv.Violf("%s: Stats.FreeAlloc=%d, want %d", when, st.FreeAlloc, (len(free)+len(pending))*e.PageSize)
 		}
 	}
